@@ -106,6 +106,35 @@ def scan_mutations(code, fields, where, out, opaque_ok=True):
         raise TranslateError(f"{where}: unknown method `.{meth}(` on Compiler field `{f}`; classify it in gen_snapshot.py")
 
 
+def fallible_exits(code):
+    """Linear scan with a stack of blocks. A block is 'restored' once
+    `self.restore_snapshot(snapshot)` has been seen in it or in an enclosing
+    block. Returns [(description, restored?)] for every `return` and `?`."""
+    exits = []
+    stack = [False]
+    i, n = 0, len(code)
+    tok = re.compile(r"self\s*\.\s*restore_snapshot\s*\(\s*snapshot\s*\)|\breturn\b|\?\s*[;)\n.,]|[{}]|\"(?:[^\"\\]|\\.)*\"")
+    line = lambda pos: code.count("\n", 0, pos) + 1
+    for m in tok.finditer(code):
+        t = m.group(0)
+        if t == "{": stack.append(stack[-1])
+        elif t == "}":
+            if len(stack) > 1: stack.pop()
+        elif t.startswith('"'): continue
+        elif t.startswith("self"): stack[-1] = True
+        elif t == "return":
+            rest = code[m.end():m.end() + 60].strip().split("\n")[0]
+            # `return Ok(())`-like early success exits inside error handling are
+            # still exits after restore; record all of them
+            exits.append((f"return {rest[:40]}".replace('"', "'"), stack[-1]))
+        else:  # the ? operator
+            before = code[max(0, m.start() - 50):m.start()].strip().split("\n")[-1]
+            exits.append((f"{before[-40:]}?".replace('"', "'"), stack[-1]))
+    if not exits:
+        raise TranslateError("c_rule: no error exit found in the fallible region (shape changed?)")
+    return exits
+
+
 def main():
     text = src("lib/src/compiler/mod.rs")
     fields = struct_fields(text, "Compiler")
@@ -172,6 +201,11 @@ def main():
             if d not in seen and d not in ("take_snapshot", "restore_snapshot"): todo.append(d)
     muts = sorted(muts)
 
+    # ---- exits of the fallible region: every way c_rule can leave with an error
+    # (`return ...` other than the final Ok, and the `?` operator) must be
+    # preceded, on its path, by `self.restore_snapshot(snapshot)`.
+    exits = fallible_exits(strip_comments(region))
+
     ctor = lambda f: "F_" + f
     L = []
     L.append("(* GENERATED by translate/gen_snapshot.py from lib/src/compiler/mod.rs -- do not edit. *)")
@@ -202,6 +236,11 @@ def main():
     L.append(f"(* mutations of Compiler fields reachable from the fallible region of c_rule; methods followed: {', '.join(reached)} *)")
     L.append("Definition mutations : list (field * mkind) :=\n  [" +
              ";\n   ".join(f"({ctor(f)}, {k})" for f, k in muts) + "].")
+    L.append("")
+    L.append("(* every exit (return / ?) of the fallible region of c_rule, and whether")
+    L.append("   `self.restore_snapshot(snapshot)` was executed on the way to it *)")
+    L.append("Definition fallible_exits : list (string * bool) :=\n  [" +
+             ";\n   ".join(f'("{d}", {str(r).lower()})' for d, r in exits) + "].")
     L.append("")
     write_if_changed("SnapshotGen.v", "\n".join(L) + "\n")
 
